@@ -13,6 +13,7 @@ import ModVerif.Model.Modfile.EditAbs
 import ModVerif.Proofs.EditModel
 import ModVerif.Proofs.EditRefineInvRun
 import ModVerif.Proofs.EditRefineNoPanic
+import ModVerif.Proofs.EditRefineInvBulk
 namespace ModVerif.Props.C15
 open ModVerif ModVerif.EditSpec ModVerif.Modfile
 
@@ -134,9 +135,9 @@ theorem typed_eq_tree_partial :
     What is missing for the full C15 statement:
     (1) `Inv (load f)` for every strictly parsed, well-formed `f` (a fact about the parser's token rewriting and id
         numbering; kernel-evaluated sessions from parsed files: `typed_eq_tree_partial`);
-    (2) the two bulk requirement setters — their `setIndirect` step needs the hypothesis `NoNestedIndirectMarker`
-        (no requirement line whose comment text after `indirect;` is again an indirect marker: that is the recorded
-        finding `C16_violated_indirect_marker_survives`) and SetRequireSeparateIndirect's block surgery;
+    (2) SetRequireSeparateIndirect (block surgery); SetRequire is `setRequire_preserves_inv` below, under
+        `NoNestedIndirectMarker` (no requirement line whose comment text after `indirect;` is again an indirect marker:
+        the recorded finding `C16_violated_indirect_marker_survives`);
     (3) the print/parse round trip of the tree (C02's `format_preserves_directives`) to pass from "reading of the
         tree" to "strict parse of the formatted file" — where the three recorded rationale findings live. -/
 theorem typed_eq_tree_partial2 (e e' : Edit.EFile) (ops : List Edit.Op) (res : List Bool) (hi : Edit.Inv e)
@@ -154,6 +155,17 @@ theorem nilDeref_unreachable_partial (e : Edit.EFile) (ops : List Edit.Op) (hi :
     ∃ e' res, Edit.runOps Edit.applyMod e ops [] 0 = .done e' res ∧ Edit.Inv (Edit.cleanup e') := by
   rcases Edit.runOps_total ops e [] 0 hv hi with ⟨e', res, h⟩
   exact ⟨e', res, h, Edit.typed_eq_tree_partial2 e e' ops res hi (fun op hop => (hv op hop).1) h⟩
+
+/-- **SetRequire preserves the invariant** — when every typed requirement is live (a Cleanup has just run, as the
+    property prescribes) and under `NoNestedIndirectMarker`: `setIndirect` achieves what it is asked for on every
+    requirement line.  That hypothesis fails exactly for the recorded finding
+    `Props.C16.C16_violated_indirect_marker_survives` (comment text after `indirect;` that is again an indirect marker);
+    it is decidable on a concrete file (`Edit.NoNestedIndirectMarker.of_all`). -/
+theorem setRequire_preserves_inv (e e' : Edit.EFile) (want : List Edit.Want) (perm : List Edit.Want → List Edit.Want)
+    (hperm : ∀ l, (perm l).Perm l) (hg : Edit.GoodWant want) (hi : Edit.Inv e)
+    (hlive : ∀ r ∈ e.f.require, Edit.liveRq r = true) (hset : Edit.NoNestedIndirectMarker e)
+    (h : Edit.setRequire e want perm = .ok e') : Edit.Inv e' :=
+  Edit.setRequire_inv e e' want perm hperm hg hi hlive hset h
 
 /-- one operation preserves the invariant (the per-operation lemma (ii) of lean/PENDING.md) -/
 theorem op_preserves_inv (e e' : Edit.EFile) (op : Edit.Op) (hv : Edit.ValidArgsT op) (hi : Edit.Inv e)
